@@ -348,11 +348,13 @@ def parsePEL(stream: DataStream, config: Config, exit_on_error: bool):
 def parseAndWriteOutput(file: str, output_dir: str, config: Config,
                         delete_after_parsing: bool) -> None:
 
-    with open(file, 'rb') as fd:
-        data = fd.read()
-        stream = DataStream(data, byte_order='big', is_signed=False)
+    # A file that cannot be opened or read is skipped like one that cannot be
+    # decoded: the open is inside the per-file exception barrier.
+    try:
+        with open(file, 'rb') as fd:
+            data = fd.read()
+            stream = DataStream(data, byte_order='big', is_signed=False)
 
-        try:
             eid, json_string = parsePEL(stream, config, False)
 
             if len(json_string) != 0:
@@ -368,8 +370,8 @@ def parseAndWriteOutput(file: str, output_dir: str, config: Config,
                     os.remove(file)
             else:
                 print(f"No PEL parsed for {file}", file=sys.stderr)
-        except Exception as e:
-            print(f"No PEL parsed for {file}: {e}", file=sys.stderr)
+    except Exception as e:
+        print(f"No PEL parsed for {file}: {e}", file=sys.stderr)
 
 
 def deleteAllPELs(path: str) -> None:
@@ -509,10 +511,10 @@ def parsePelFromPLID(path: str, config: Config):
     root, file_list = getFileList(path, config.extension, config.rev)
     final_summary = {}
     for file in file_list:
-        with open(os.path.join(root, file), 'rb') as fd:
-            data = fd.read()
-            stream = DataStream(data, byte_order='big', is_signed=False)
-            try:
+        try:
+            with open(os.path.join(root, file), 'rb') as fd:
+                data = fd.read()
+                stream = DataStream(data, byte_order='big', is_signed=False)
                 eid, summary = parsePELSummary(stream, config)
                 if eid :
                     # Compare numerically: the displayed PLID has no leading
@@ -522,8 +524,8 @@ def parsePelFromPLID(path: str, config: Config):
                             printPELInHexFormat(data)
                         else:
                             final_summary[eid] = summary
-            except Exception as e:
-                print(f"Exception: No PEL parsed for {file}: {e}", file=sys.stderr)
+        except Exception as e:
+            print(f"Exception: No PEL parsed for {file}: {e}", file=sys.stderr)
     if not config.hex:
         print(prettyPrint(json.dumps(final_summary, indent=4) , desiredSpace = 29))
 
@@ -545,10 +547,10 @@ def parsePelFromSRCID(path: str, config: Config):
     root, file_list = getFileList(path, config.extension, config.rev)
     final_summary = {}
     for file in file_list:
-        with open(os.path.join(root, file), 'rb') as fd:
-            data = fd.read()
-            stream = DataStream(data, byte_order='big', is_signed=False)
-            try:
+        try:
+            with open(os.path.join(root, file), 'rb') as fd:
+                data = fd.read()
+                stream = DataStream(data, byte_order='big', is_signed=False)
                 eid, summary = parsePELSummary(stream, config)
                 if eid :
                     if config.src and config.src in summary['SRC']:
@@ -563,8 +565,8 @@ def parsePelFromSRCID(path: str, config: Config):
                             else:
                                 final_summary[eid] = summary
 
-            except Exception as e:
-                print(f"Exception: No PEL parsed for {file}: {e}", file=sys.stderr)
+        except Exception as e:
+            print(f"Exception: No PEL parsed for {file}: {e}", file=sys.stderr)
     if not config.hex:
         print(prettyPrint(json.dumps(final_summary, indent=4) , desiredSpace = 29))
 
@@ -611,18 +613,18 @@ def extractAndSummarizePEL(file: str, config: Config):
     Returns: Event ID (eid) and summary extracted from the PEL.
             If no PEL is parsed, empty strings are returned.
     """
-    with open(file, 'rb') as fd:
-        data = fd.read()
-        stream = DataStream(data, byte_order='big', is_signed=False)
-        try:
+    try:
+        with open(file, 'rb') as fd:
+            data = fd.read()
+            stream = DataStream(data, byte_order='big', is_signed=False)
             eid, summary = parsePELSummary(stream, config)
             if eid :
                 if config.hex:
                     printPELInHexFormat(data)
                 else:
                     return eid, summary
-        except Exception as e:
-            print(f"Exception: No PEL parsed for {file}: {e}", file=sys.stderr)
+    except Exception as e:
+        print(f"Exception: No PEL parsed for {file}: {e}", file=sys.stderr)
     return "", ""
 
 
@@ -664,9 +666,9 @@ def extractAllPELsData(path: str, config: Config):
         print("[")
     firstPELPrinted = False
     for file in file_list:
-        with open(os.path.join(root, file), 'rb') as fd:
-            data = fd.read()
-            try:
+        try:
+            with open(os.path.join(root, file), 'rb') as fd:
+                data = fd.read()
                 stream = DataStream(data, byte_order='big', is_signed=False)
                 _, json_string = parsePEL(stream, config, False)
                 if json_string:
@@ -677,8 +679,8 @@ def extractAllPELsData(path: str, config: Config):
                         firstPELPrinted = True
                     else:
                         printPELInHexFormat(data)
-            except Exception as e:
-                print(f"Exception: No PEL parsed for {file}: {e}", file=sys.stderr)
+        except Exception as e:
+            print(f"Exception: No PEL parsed for {file}: {e}", file=sys.stderr)
     if not config.hex:
         if firstPELPrinted:
             print()
@@ -712,10 +714,10 @@ def printPELCount(path: str, config: Config):
     count = 0
     root, file_list = getFileList(path, config.extension)
     for file in file_list:
-        with open(os.path.join(root, file), 'rb') as fd:
-            data = fd.read()
-            stream = DataStream(data, byte_order='big', is_signed=False)
-            try:
+        try:
+            with open(os.path.join(root, file), 'rb') as fd:
+                data = fd.read()
+                stream = DataStream(data, byte_order='big', is_signed=False)
                 out = OrderedDict()
                 ret, ph = generatePH(stream, out)
                 if not ret:
@@ -726,8 +728,8 @@ def printPELCount(path: str, config: Config):
                 if not considerPEL(uh, config):
                     continue
                 count+= 1
-            except Exception as e:
-                print(f"Exception: No PEL parsed for {file}: {e}", file=sys.stderr)
+        except Exception as e:
+            print(f"Exception: No PEL parsed for {file}: {e}", file=sys.stderr)
     print("{\n    \"Number of PELs found\": "+str(count)+"\n}")
 
 
